@@ -2482,7 +2482,8 @@ func (m *Machine) processHandlers(e *Event) (Result, bool) {
 	m.activeStatesMx.RLock()
 	defer m.activeStatesMx.RUnlock()
 	for _, ch := range m.subs.ProcessWhenArgs(e) {
-		close(ch)
+		// a concurrent disposal closes the listed channels too
+		closeSafe(ch)
 	}
 
 	return Executed, handlerCalled
